@@ -225,7 +225,7 @@ def plot_cases(draw, tier):
     def admissible(n):
         m1, m2 = min(npts[0], npts[3]), min(npts[2], npts[3])
         return any(n % a == 0 and n // a <= m2 for a in range(1, min(n, m1) + 1))
-    sizes = [p_ for p_ in range(2, (4 if tier == "quick" else 7) + 1) if admissible(p_ - 1 if plot else p_)]
+    sizes = [p_ for p_ in range(2, (5 if tier == "quick" else 7) + 1) if admissible(p_ - 1 if plot else p_)]
     P = draw(st.sampled_from(sizes))
     draw_rank = draw(st.integers(0, P - 1))
     ops = []
@@ -233,7 +233,7 @@ def plot_cases(draw, tier):
     # minima/maxima are not defined for complex data, so those requests become block requests
     cplx = draw(st.integers(0, 3)) == 0
     for _ in range(draw(st.integers(1, 6))):
-        k = draw(st.integers(0, 4))
+        k = draw(st.sampled_from([0, 1, 2, 2, 2, 3, 4]))      # several fixed indices most often: one placeholder reduce per call
         if cplx and k < 3:
             k = 3
         root = draw(st.integers(0, P - 1))
